@@ -63,7 +63,29 @@ func build(c *ev.Case, pats []string) *sut {
 	s.hasFFFD = hasRune(pats, utf8.RuneError)
 	s.hash = hashStrings(uint64(len(pats)), pats)
 	s.flip = c.Index%2 == 1
-	for _, p := range pats {
+	// 1 trie in 8 is built, used, extended and built again: the second build must
+	// give the same contract as a single one
+	cut := -1
+	if len(pats) > 1 && c.Rng.Chance(1, 8) {
+		cut = c.Rng.Range(1, len(pats)-1)
+	}
+	for i, p := range pats {
+		if i == cut {
+			if !c.Guard("BuildFailureLinks", func() { s.t.BuildFailureLinks() }) {
+				return nil
+			}
+			c.Logf("BuildFailureLinks() (intermediate)")
+			all := distinctNonEmpty(pats)
+			for k := 0; k < 2; k++ {
+				text := all[c.Rng.Intn(len(all))] + all[c.Rng.Intn(len(all))]
+				c.Guard("Replace", func() { _ = s.t.Replace(text, "#") })
+				c.Guard("ReplaceWithMask", func() { _ = s.t.ReplaceWithMask(text, '*') })
+			}
+			if c.Failed() {
+				return nil
+			}
+			c.Add("rebuilds", 1)
+		}
 		if !c.Guard("Insert", func() { s.t.Insert(p) }) {
 			return nil
 		}
@@ -674,6 +696,142 @@ func invalidCase(c *ev.Case) {
 	}
 }
 
+// mixedCase: patterns contain lone bytes taken from the encodings of the runes the
+// text is made of (é = c3 a9, 世 = e4 b8 96, U+FFFD = ef bf bd), so a byte-wise
+// occurrence may lie INSIDE a valid rune of the text. Whether such an occurrence
+// counts is not settled by the statement, so only what both readings agree on is
+// demanded: no panic; ReplaceWithMask preserves the number of decoding units;
+// a unit none of whose bytes lies in any byte-wise occurrence is unchanged; a unit
+// that is completely covered by an occurrence whose both ends fall on unit
+// boundaries is masked; Replace keeps every byte that lies in no occurrence.
+var mixedTextRunes = []string{"a", "b", "é", "世", "\uFFFD", "\xa9", "\xbf", "\xef"}
+var mixedPatPieces = []string{"a", "b", "\xc3", "\xa9", "\xe4", "\xb8", "\x96", "\xef", "\xbf", "\xbd", "é", "世", "\uFFFD"}
+
+func mixedCase(c *ev.Case) {
+	rng := c.Rng
+	var pats []string
+	for i := 0; i < rng.Range(1, 5); i++ {
+		var b strings.Builder
+		for j := 0; j < rng.Range(1, 3); j++ {
+			b.WriteString(mixedPatPieces[rng.Intn(len(mixedPatPieces))])
+		}
+		pats = append(pats, b.String())
+	}
+	s := build(c, pats)
+	if s == nil {
+		return
+	}
+	for k := 0; k < 4; k++ {
+		var tb strings.Builder
+		for j := 0; j < rng.Range(1, 10); j++ {
+			tb.WriteString(mixedTextRunes[rng.Intn(len(mixedTextRunes))])
+		}
+		text := tb.String()
+		occs := occurrences(s.dpats, text)
+		covered := make([]bool, len(text))
+		for _, o := range occs {
+			for i := o.start; i < o.stop; i++ {
+				covered[i] = true
+			}
+		}
+		// decoding units
+		type unit struct{ a, b int }
+		var units []unit
+		boundary := map[int]bool{0: true}
+		for i := 0; i < len(text); {
+			_, sz := utf8.DecodeRuneInString(text[i:])
+			units = append(units, unit{i, i + sz})
+			i += sz
+			boundary[i] = true
+		}
+		aligned := make([]bool, len(text)) // byte lies in an occurrence that starts and ends on unit boundaries
+		for _, o := range occs {
+			if boundary[o.start] && boundary[o.stop] {
+				for i := o.start; i < o.stop; i++ {
+					aligned[i] = true
+				}
+			}
+		}
+		var got string
+		if !c.Guard("ReplaceWithMask", func() { got = s.t.ReplaceWithMask(text, '*') }) {
+			return
+		}
+		c.Logf("patterns %s: ReplaceWithMask(%+q) -> %+q", q(pats), text, got)
+		// compare unit by unit
+		gi := 0
+		for _, u := range units {
+			anyCov, allAligned := false, true
+			for i := u.a; i < u.b; i++ {
+				if covered[i] {
+					anyCov = true
+				}
+				if !aligned[i] {
+					allAligned = false
+				}
+			}
+			orig := text[u.a:u.b]
+			switch {
+			case !anyCov:
+				if !strings.HasPrefix(got[gi:], orig) {
+					c.Failf("mixed-mask-untouched-unit-changed", "patterns %s: ReplaceWithMask(%+q) = %+q: the unit %+q at byte %d lies in no occurrence but was changed", q(pats), text, got, orig, u.a)
+					return
+				}
+				gi += len(orig)
+			case allAligned:
+				if !strings.HasPrefix(got[gi:], "*") {
+					c.Failf("mixed-mask-covered-unit-kept", "patterns %s: ReplaceWithMask(%+q) = %+q: the unit %+q at byte %d is covered by a unit-aligned occurrence but was not masked", q(pats), text, got, orig, u.a)
+					return
+				}
+				gi++
+			default: // partly covered, or covered only by a misaligned occurrence: either outcome
+				if strings.HasPrefix(got[gi:], "*") && orig != "*" {
+					gi++
+				} else if strings.HasPrefix(got[gi:], orig) {
+					gi += len(orig)
+				} else {
+					c.Failf("mixed-mask-unit-garbled", "patterns %s: ReplaceWithMask(%+q) = %+q: at the unit %+q (byte %d) the result is neither the unit nor the mask", q(pats), text, got, orig, u.a)
+					return
+				}
+			}
+			if gi > len(got) {
+				break
+			}
+		}
+		if gi != len(got) {
+			c.Failf("mixed-mask-rune-count", "patterns %s: ReplaceWithMask(%+q) = %+q does not consist of one unit-or-mask per decoding unit of the text (%d units)", q(pats), text, got, len(units))
+			return
+		}
+		var rep string
+		if !c.Guard("Replace", func() { rep = s.t.Replace(text, "#") }) {
+			return
+		}
+		c.Logf("Replace(%+q, \"#\") -> %+q", text, rep)
+		// every byte outside all occurrences is kept, in order (as a subsequence outside the '#')
+		ri := 0
+		for i := 0; i < len(text); i++ {
+			if covered[i] {
+				continue
+			}
+			for ri < len(rep) && rep[ri] != text[i] {
+				ri++
+			}
+			if ri >= len(rep) {
+				c.Failf("mixed-replace-lost-byte", "patterns %s: Replace(%+q) = %+q lost byte %d (%+q), which lies in no occurrence", q(pats), text, rep, i, text[i:i+1])
+				return
+			}
+			ri++
+		}
+		c.Add("mixed_texts", 1)
+		if len(occs) > 0 {
+			c.Add("mixed_texts_with_occurrence", 1)
+		}
+	}
+	c.Distinct(s.hash)
+	if c.WantSample() {
+		c.Sample(fmt.Sprintf("mixed: patterns with lone bytes of multi-byte runes %s against texts of those runes; unit-wise weak oracle", q(pats)))
+	}
+}
+
 func main() {
 	r := ev.New("C06")
 	r.Rule("one case = one generated pattern list inserted into a real Trie + BuildFailureLinks, then 4-5 texts (random, overlap constructions, arbitrary bytes; or directed constructions: long pattern over earlier disjoint short ones, touching/overlapping chains, nested triples), each with 2 replacements (disjoint alphabet, empty, colliding, invalid bytes) and 1-2 mask runes of 1-4 bytes; distinct = hash of (pattern list, texts); non-trivial = at least one non-empty pattern")
@@ -693,6 +851,7 @@ func main() {
 	r.Cases("rand/wide", r.N(5000, 153600), hv, cfg{als: wide, minN: 11, maxN: 40, maxLen: 4}.run)
 	r.Cases("rand/big", r.N(60, 3000), hv, cfg{als: []alphabet{alphaABC, alphaMixed, alphaSib, alphaWide, alphaWideA}, minN: 40, maxN: 400, maxLen: 8, textRunes: []int{400, 1500, 4000}}.run)
 	r.Cases("rand/invalid-bytes", r.N(20000, 640000), hv, invalidCase)
+	r.Cases("rand/mixed-weak", r.N(30000, 900000), hv, mixedCase)
 	r.Cases("lookback", r.N(40000, 1280000), hv, lookbackCase)
 	r.Cases("chains", r.N(30000, 896000), hv, chainCase)
 	r.Cases("nested", r.N(30000, 896000), hv, nestedCase)
@@ -710,5 +869,7 @@ func main() {
 	r.Require("texts_not_valid_utf8_with_occurrence", 2000)
 	r.Require("texts_without_occurrence", 1000)
 	r.Require("occurrences_containing_invalid_bytes", 5000)
+	r.Require("mixed_texts_with_occurrence", 5000)
+	r.Require("rebuilds", 2000)
 	r.Finish()
 }
